@@ -631,6 +631,133 @@ def run_form_product_case(fi):
     return out
 
 
+# ---- raw mode and the `to` option ------------------------------------------------------------------------------------------
+
+_RAW_KEYS = [('Module.body', ''), ('FunctionDef.body', ''), ('FunctionDef._body', ''), ('FunctionDef._body', 'docstr'), ('Module._body', 'docstr'),
+             ('ClassDef._body', 'docstr'), ('AsyncFunctionDef._body', 'docstr'), ('If.orelse', ''), ('List.elts', ''), ('Tuple.elts', ''), ('Set.elts', ''),
+             ('Call.args', ''), ('Call._args', 'pos'), ('Delete.targets', ''), ('Dict._all', ''), ('MatchSequence.patterns', ''),
+             ('arguments._all', 'plain'), ('ClassDef._bases', 'pos'), ('MatchClass.patterns', ''), ('With.items', ''), ('Import.names', '')]
+
+
+def _elem_spans(fam, src):
+    """(start, end) byte offsets in `src` of every element of the family's field, from CPython positions only"""
+    tree = ast.parse(src)
+    node = fam.find(tree)
+    b = src.encode()
+    starts = [0]
+    for ln in b.split(b'\n'):
+        starts.append(starts[-1] + len(ln) + 1)
+    off = lambda l, c: starts[l - 1] + c
+    sp = lambda x: (off(x.lineno, x.col_offset), off(x.end_lineno, x.end_col_offset))
+    if fam.name == 'Dict._all':
+        out = []
+        for k, v in zip(node.keys, node.values):
+            vs, ve = sp(v)
+            if k is None:
+                st = b.rindex(b'**', 0, vs)
+            else:
+                st = sp(k)[0]
+            out.append((st, ve))
+        return out
+    if fam.field == 'items':
+        return [(sp(w.context_expr)[0], sp(w.optional_vars or w.context_expr)[1]) for w in node.items]
+    if fam.name == 'arguments._all':
+        a = node
+        return [sp(x) for x in a.posonlyargs + a.args + ([a.vararg] if a.vararg else []) + a.kwonlyargs + ([a.kwarg] if a.kwarg else [])]
+    return [sp(x) for x in _velems(fam, tree)]
+
+
+def run_raw_product_case(fi):
+    """Deterministic: raw mode (`raw=True`) and the `to` option of single-element puts, on real and virtual fields (with and
+    without docstring): every int index incl. negative and out of range x every `to` element at or after it x put / element
+    replace; raw slice puts over every non-empty range in raw index forms.  Raw mode is a literal text replacement of the
+    span of the addressed elements followed by a reparse, so the oracle is: Python list indexing picks the elements
+    (IndexError out of range), their span comes from CPython's positions, the expected tree is ast.parse of the spliced
+    text; requests whose spliced text is not valid Python are skipped."""
+    fam = FAMILIES[fi]
+    out = []
+    n = min(max(fam.minlen, 3), len(fam.pool) - 2)
+    old, rest = fam.pool[:n], fam.pool[n:]
+    src = fam.render(old)
+    try:
+        spans = _elem_spans(fam, src)
+    except SyntaxError:
+        return out
+    if len(spans) != n:
+        return out
+    field = fam.field
+    bsrc = src.encode()
+    stmtlike = fam.code is sl
+
+    def elem(nd, j, whole=False):
+        x = getattr(nd, field)[j]
+        if isinstance(x, str) or x is None:
+            raise _Skip()
+        if not getattr(x, 'is_FST', False):         # multinode element (Dict pair ...): its last node (as a `to` target only)
+            if fam.kind == 'Dict' and not whole:
+                return nd.values[j]
+            raise _Skip()
+        return x
+
+    def run(name, fn, span, text, a, b, extra):
+        rec = {'fam': fam.name, 'tag': fam.tag, 'op': name, 'sigop': name, 'src': src, 'a': a, 'b': b, 'new': extra, 'layout': False, 'raw_args': fi}
+        exp = None
+        if span is not None:
+            exp_src = (bsrc[:span[0]] + text.encode() + bsrc[span[1]:]).decode()
+            try:
+                exp = ast.dump(ast.parse(exp_src))
+            except SyntaxError:
+                return
+        try:
+            root = _fst(src)
+            fn(fam.find(root.a).f)
+            if span is None:
+                rec['fail'], rec['detail'] = 'no-IndexError', f'index {a} out of range for {n} elements was accepted: {root.src[:160]!r}'
+            else:
+                got = ast.dump(root.a)
+                if got != exp:
+                    rec['fail'], rec['detail'] = 'structure', f'{root.src[:160]!r} instead of {exp_src[:160]!r}: ' + _first_diff(got, exp)
+                else:
+                    d = _source_check(root, exp)
+                    if d:
+                        rec['fail'], rec['detail'] = 'source', d
+        except _Skip:
+            return
+        except IndexError as ex:
+            if span is not None:
+                rec['fail'], rec['detail'] = 'raised:IndexError', str(ex)[:160]
+        except Exception as ex:
+            rec['fail'], rec['detail'] = 'raised:' + type(ex).__name__, str(ex)[:200]
+        out.append(rec)
+
+    one = rest[0]
+    for i in range(-n - 2, n + 2):
+        ok = -n <= i < n
+        i2 = i + n if i < 0 else i
+        if not ok:
+            run('put(raw)', lambda nd: nd.put(one, i, field, raw=True), None, one, i, None, [one])
+            run('put(raw,to)', lambda nd: nd.put(one, i, field, raw=True, to=elem(nd, n - 1)), None, one, i, n - 1, [one])
+            continue
+        run('put(raw)', lambda nd: nd.put(one, i, field, raw=True), spans[i2], one, i, None, [one])
+        run('elem.replace(raw)', lambda nd: elem(nd, i, True).replace(one, raw=True), spans[i2], one, i, None, [one])
+        for j in range(i2, n):
+            span = (spans[i2][0], spans[j][1])
+            run('put(raw,to)', lambda nd: nd.put(one, i, field, raw=True, to=elem(nd, j)), span, one, i, j, [one])
+            run('elem.replace(raw,to)', lambda nd: elem(nd, i, True).replace(one, raw=True, to=elem(nd, j)), span, one, i, j, [one])
+    for s_ in range(n):
+        for e_ in range(s_ + 1, n + 1):
+            for nw in ((rest[:1],) if stmtlike else (rest[:1], rest[:2])):
+                text = ', '.join(nw) if not stmtlike else nw[0]
+                span = (spans[s_][0], spans[e_ - 1][1])
+                for a, b in ((s_, e_), (s_ - n, 'end' if e_ == n else e_ - n)):
+                    run('put_slice(raw)', lambda nd: nd.put_slice(text, a, b, field, raw=True), span, text, a, b, nw)
+    return out
+
+
+def raw_items():
+    return [i for i, f in enumerate(FAMILIES) if (f.name, f.tag) in _RAW_KEYS]
+
+
 # ---- refused requests must leave everything as it was ----------------------------------------------------------------------
 
 _ARGS_SHAPES = ['a, /, b', 'a, *, k', 'a, /, b, *, k=1, **kw', '*v, k', 'a=1, /, b=2, *, k', 'a, b=1, *v, k, j=2, **kw', 'a, /', '*, k, j=2',
